@@ -1141,6 +1141,12 @@ class Interp:
     # ---- attributes --------------------------------------------------------------------
     def getattr(self, obj, name):
         if isinstance(obj, PyInstance):
+            dc, dv = obj.pyclass.lookup(name) if not name.startswith("__") else (None, _MISSING)
+            if isinstance(dv, PyInstance) and dv.pyclass.lookup("__get__")[1] is not _MISSING:
+                # descriptor protocol: a data descriptor (defines __set__/__delete__) wins over the instance dict
+                is_data = dv.pyclass.lookup("__set__")[1] is not _MISSING or dv.pyclass.lookup("__delete__")[1] is not _MISSING
+                if is_data or name not in obj.attrs:
+                    return self.call(self.getattr(dv, "__get__"), [obj, obj.pyclass], {})
             if name in obj.attrs:
                 return obj.attrs[name]
             if name == "__class__":
@@ -1161,6 +1167,8 @@ class Interp:
                 raise SymRaise(AttributeError("type object '%s' has no attribute '%s'" % (obj.name, name)))
             if isinstance(v, (staticmethod, classmethod)):
                 raise Unsupported("static/class methods")
+            if isinstance(v, PyInstance) and v.pyclass.lookup("__get__")[1] is not _MISSING:
+                return self.call(self.getattr(v, "__get__"), [None, obj], {})
             return v
         if isinstance(obj, ModuleEnv):
             if name in obj.vars:
@@ -1182,6 +1190,9 @@ class Interp:
                 return obj.name
             if name == "__qualname__":
                 return obj.qualname
+            if name == "__get__":
+                fn_ = obj
+                return _NativeRecordMethod(lambda inst, owner=None: fn_ if inst is None else PyBoundMethod(fn_, inst))
             raise Unsupported("attribute %s of function" % name)
         if isinstance(obj, PartialObj):
             if name == "func":
@@ -1191,6 +1202,19 @@ class Interp:
             if name == "keywords":
                 return obj.kwargs
             raise SymRaise(AttributeError("'functools.partial' object has no attribute '%s'" % name))
+        if isinstance(obj, tuple) and hasattr(type(obj), "_fields") and type(obj) in self.native_ok:
+            # a record built from a typing.NamedTuple class of the analysed code
+            cls_ = type(obj)
+            if name in cls_._fields:
+                return obj[cls_._fields.index(name)]
+            if name == "_replace":
+                return _NativeRecordMethod(lambda *a, **k: obj._replace(*a, **k))
+            if name == "_asdict":
+                return _NativeRecordMethod(lambda: self.ctx.alloc(dict(obj._asdict())))
+            if name == "_fields":
+                return cls_._fields
+            if name == "__class__":
+                return cls_
         if isinstance(obj, (SStr, str, SHex, SNorm)):
             if not hasattr(str, name):
                 raise SymRaise(AttributeError("'str' object has no attribute '%s'" % name))
@@ -1236,6 +1260,9 @@ class Interp:
             c, v = obj.pyclass.lookup(name)
             if isinstance(v, PyProperty):
                 raise Unsupported("property setter")
+            if isinstance(v, PyInstance) and v.pyclass.lookup("__set__")[1] is not _MISSING:
+                self.call(self.getattr(v, "__set__"), [obj, value], {})
+                return
             if not self.ctx.is_local(obj):
                 self.ctx.effect("attr-store", obj, name)
             obj.attrs[name] = value
@@ -1456,6 +1483,17 @@ class Interp:
             raise Unsupported("exec of %s" % type(code).__name__)
         scope = Scope("module", locals_, globals_, owner=owner)
         self.exec_body(code.tree.body, scope)
+
+
+class _NativeRecordMethod:
+    def __init__(self, f):
+        self.f = f
+
+    def pysym_call(self, ctx, interp, args, kwargs):
+        try:
+            return self.f(*args, **kwargs)
+        except (TypeError, ValueError) as e:
+            raise SymRaise(e)
 
 
 def _contains_yield(fnode):
